@@ -33,13 +33,15 @@ SPEC = dict(
         "SymVerif.C34.evalR_add_args",
         "SymVerif.C34.evalR_mul_args",
     ],
-    rule="q <query> (A <statements>) <expr>: 15 queries x random assumption sets (per symbol: none/complex/real/rational/"
+    rule="q <query> (A <statements>) <expr>: 17 queries (even/odd mostly on shapes with definite parity: numbers, c*x*y, 2k*x + d) x random assumption sets (per symbol: none/complex/real/rational/"
          "integer x none/>0/<0/>=0/<=0/==0/!=0/two-sided/other numeric bounds; 4% inconsistent sets) x expressions "
          "(55% targeted at the combination rules: linear combinations, products, powers, one-argument functions, sums of "
          "constants; 35% random trees of depth 1-4 incl. Gaussian rationals, radicals, symbolic exponents, a few floats / "
          "infinities; leaves; Set/Relational/Boolean objects for the throwing paths). distinct = distinct op lines; "
          "non-trivial = all but the tags trivial-*; the answer distribution (T/F/I per query) is in impl_stats",
-    not_covered=["is_even / is_odd / is_polynomial (model and theorems not written yet; see docs/C34.md)",
+    not_covered=["is_polynomial (not modelled, not generated)",
+                 "is_even / is_odd: modelled through models of div(b, 2) and add(b, 1) (Model/Queries2.lean), compared and "
+                 "oracle-checked on every run, no theorem yet",
                  "is_rational / is_irrational / is_algebraic / is_transcendental: modelled and compared on every run, "
                  "oracle-checked, no theorem yet (irrationality of e and transcendence of pi, e are not in Mathlib)",
                  "ComplexVisitor rules that build new function objects (tan, cot, sec, csc, atan, atanh, acot, acoth) and "
@@ -64,5 +66,6 @@ SPEC = dict(
     technique="induction on fuel with ordered-field facts (sums of positives, integer closure), get_args()/value lemmas, "
               "invariant proof for the Assumptions constructor (every elementary update is justified by its statement); "
               "differential correspondence + exact-evaluation oracle",
-    partial=["is_rational/is_irrational, is_algebraic/is_transcendental, is_even/is_odd, is_polynomial: no theorem"],
+    partial=["is_rational/is_irrational, is_algebraic/is_transcendental, is_even/is_odd: modelled + correspondence + oracle, no theorem",
+             "is_polynomial: not covered"],
 )
